@@ -51,6 +51,8 @@ def compare(answer: dict, model) -> dict:
     """answer: what implrun.run_job returned (with api_tree, flat_keys, log); model: parsed answer of the front command"""
     if model is None:
         return {"status": "noview", "diff": answer.get("view_err") or "no view was dumped"}
+    if model[0] == "agree":      # compared when the corpus was built (corpus.build keeps only the verdict)
+        return {"status": "ambiguous" if model[1] == "1" else "agree", "diff": None}
     exc = answer.get("exc")
     if model[0] == "bad-view":
         return {"status": "differ", "diff": "the model cannot read the dumped view"}
